@@ -81,6 +81,7 @@ func (c *controller) SetBalancer(l log.Logger, name string, svcRo *v1.Service, _
 
 	prevIPs := c.ips.IPs(name)
 	prevAllocKey := c.ips.AllocationKey(name)
+	prevPorts := c.ips.Ports(name)
 
 	if c.convergeBalancer(l, name, svc) != nil {
 		syncStateRes = controllers.SyncStateErrorNoRetry
@@ -103,6 +104,13 @@ func (c *controller) SetBalancer(l log.Logger, name string, svcRo *v1.Service, _
 			level.Info(l).Log("event", "serviceUpdated", "msg", "removed loadbalancer from service, services will be reprocessed")
 			syncStateRes = controllers.SyncStateReprocessAll
 		}
+	}
+
+	if SharingKey(svc) != "" && c.isServiceAllocated(name) && releasedPort(prevPorts, c.ips.Ports(name)) {
+		// The service keeps its (shareable) address but gave up a port on it:
+		// a service with the same sharing key waiting for that port can now be served.
+		level.Info(l).Log("event", "serviceUpdated", "msg", "released a port of a shared address, services will be reprocessed")
+		syncStateRes = controllers.SyncStateReprocessAll
 	}
 
 	if reflect.DeepEqual(svcRo, svc) {
@@ -150,6 +158,24 @@ func releasedIP(prev, cur []net.IP) bool {
 		found := false
 		for _, c := range cur {
 			if p.Equal(c) {
+				found = true
+				break
+			}
+		}
+		if !found {
+			return true
+		}
+	}
+	return false
+}
+
+// releasedPort returns true if at least one of the previous ports is not
+// part of the current ones.
+func releasedPort(prev, cur []allocator.Port) bool {
+	for _, p := range prev {
+		found := false
+		for _, c := range cur {
+			if p == c {
 				found = true
 				break
 			}
